@@ -113,7 +113,7 @@ pub fn targets<F: Fl>(c: &Case, col: usize) -> Vec<F> {
 /// Degenerate / non-square training shapes, decided by the LAST dial (read by position so that the adapters' own dial
 /// order is untouched): half of the cases keep all rows, the others keep 1, p-1, p or p+1 rows (p = feature count).
 /// Targets / label material are cut accordingly. A fit that rejects the shape simply yields no fitted instance.
-pub fn shape_variant(c: &Case, obs: &mut vengine::Obs) -> Case {
+pub fn shape_variant(c: &Case, obs: &mut vengine::Obs, min_rows: usize) -> Case {
     let p = ncols(c);
     let n = c.x.len();
     let dial = idx(c.knobs.last().copied().unwrap_or(0), 8);
@@ -124,6 +124,7 @@ pub fn shape_variant(c: &Case, obs: &mut vengine::Obs) -> Case {
         7 => p + 1,
         _ => n,
     }
+    .max(min_rows)
     .min(n);
     obs.class_if(keep == 1, "shape_single_sample");
     obs.class_if(keep < p, "shape_fewer_samples_than_features");
